@@ -105,6 +105,14 @@ class Lab:
             self.close()
             raise
         # observers
+        self.rewinds = []  # number of documents emitted so far at each RunEngine._rewind() call
+        _orig_rewind = self.RE._rewind
+
+        def _rewind_spy():
+            lab.rewinds.append((len(lab.docs), len(lab.msgs)))
+            return _orig_rewind()
+
+        self.RE._rewind = _rewind_spy
         self.inflight = None  # the message whose handler is executing right now (instrumented through the command registry dict)
 
         def _wrap(coro):
